@@ -1,0 +1,30 @@
+//go:build verif
+// +build verif
+
+package par2
+
+// Hooks for the runtime monitors under /verif. Compiled only with
+// -tags verif.
+
+// VerifFileIO is the file-system seam used by Create, Verify and
+// Repair.
+type VerifFileIO = fileIO
+
+// VerifDefaultFileIO is the fileIO that the exported entry points
+// use.
+type VerifDefaultFileIO = defaultFileIO
+
+// VerifCreate is Create with an explicit fileIO.
+func VerifCreate(fs VerifFileIO, parPath string, filePaths []string, options CreateOptions) error {
+	return create(fs, parPath, filePaths, options)
+}
+
+// VerifVerify is Verify with an explicit fileIO.
+func VerifVerify(fs VerifFileIO, parPath string, options VerifyOptions) (VerifyResult, error) {
+	return verify(fs, parPath, options)
+}
+
+// VerifRepair is Repair with an explicit fileIO.
+func VerifRepair(fs VerifFileIO, parPath string, options RepairOptions) (RepairResult, error) {
+	return repair(fs, parPath, options)
+}
